@@ -558,9 +558,9 @@ class BuiltinMixin(CallMixin):
         if name == "iff":
             return ops.truth(st, a[0]) == ops.truth(st, a[1])
         if name == "isinf":
-            return ops.xr(a[0]).isinf
+            return ops.xr(a[0].val if isinstance(a[0], Opt) else a[0]).isinf   # of an optional: meaningful under `not isnone(.)`
         if name == "fin":
-            return ops.xr(a[0]).v
+            return ops.xr(a[0].val if isinstance(a[0], Opt) else a[0]).v
         if name == "xreal":
             return XReal(ops.truth(st, a[0]), ops.to_real(a[1]))
         if name == "ite":
